@@ -182,6 +182,18 @@ func (c *panicClient) reportAs(e *Engine, x, simplified ast.Expr, ok bool, how s
 			e.Site("C12/panic", site, x, true, "reviewed: "+why)
 			return
 		}
+		// inside a helper interpreted in place: the row recorded for the helper itself
+		if fr := e.Frames(); len(fr) > 0 {
+			f := fr[len(fr)-1]
+			if pkg := c.p.PkgOf(f.Decl.Pos()); pkg != nil && !c.p.isClosureDecl(f.Decl) {
+				k2 := FuncName(pkg, f.Decl) + "|" + c.p.normExpr(c.p.ResolveDeep(simplified))
+				if why, rev := reviewedIndex[k2]; rev {
+					c.used[k2] = true
+					e.Site("C12/panic", site, x, true, "reviewed: "+why)
+					return
+				}
+			}
+		}
 		if c.failed != nil {
 			c.failed[e.CurFunc()] = true
 		}
@@ -313,7 +325,7 @@ func resizes(info *types.Info, body ast.Node, base ast.Expr) bool {
 	ast.Inspect(body, func(n ast.Node) bool {
 		if s, ok := n.(*ast.AssignStmt); ok {
 			for _, l := range s.Lhs {
-				if sameExpr(info, l, base) {
+				if sameExpr(info, l, base) && !leavesAfter(s) {
 					w = true
 				}
 			}
@@ -323,10 +335,115 @@ func resizes(info *types.Info, body ast.Node, base ast.Expr) bool {
 	return w
 }
 
+// leavesAfter: the statement is followed, in its own block, only by statements that end with a return (or a
+// break): the loop around it does not go on with the changed slice.
+func leavesAfter(s ast.Stmt) bool {
+	if curProgram == nil {
+		return false
+	}
+	blk, ok := curProgram.Parent(s).(*ast.BlockStmt)
+	if !ok || len(blk.List) == 0 {
+		return false
+	}
+	switch last := blk.List[len(blk.List)-1].(type) {
+	case *ast.ReturnStmt:
+		return true
+	case *ast.BranchStmt:
+		return last.Tok == token.BREAK
+	}
+	return false
+}
+
 func (c *panicClient) dischargeSlice(e *Engine, st *State, x *ast.SliceExpr) (bool, string) {
 	info := e.Info
 	if x.Max != nil {
 		return false, "3-index slice"
+	}
+	// e[:0]
+	if x.Low == nil && x.High != nil {
+		if v, ok := constInt(info, x.High); ok && v == 0 {
+			return true, "I-const: e[:0]"
+		}
+	}
+	// e[:i] / e[i:] with i the index variable of a loop over all indices of e
+	if (x.Low == nil) != (x.High == nil) {
+		b := x.Low
+		if b == nil {
+			b = x.High
+		}
+		if ok, _ := c.dischargeIndex(e, st, x.X, b); ok {
+			if o := objOf(info, b); o != nil {
+				return true, "I-loop: a bound that is a valid index of the same slice"
+			}
+		}
+	}
+	// s[:i] / s[i:] / s[i+k:] with i := strings.Index*(s, sep) known >= 0 (k <= len(sep)): the library returns -1 or
+	// the index of an occurrence, which lies inside s
+	{
+		found := func(b ast.Expr) (bool, int64) {
+			if b == nil {
+				return false, 0
+			}
+			k := int64(0)
+			b = ast.Unparen(b)
+			if _, isID := b.(*ast.Ident); isID {
+				if d := ast.Unparen(c.p.DefExpr(b)); d != nil {
+					if _, isBin := d.(*ast.BinaryExpr); isBin {
+						b = d // lineStart := strings.LastIndexByte(s, '\n') + 1
+					}
+				}
+			}
+			if bin, ok := b.(*ast.BinaryExpr); ok && bin.Op == token.ADD {
+				if v, isC := constInt(info, bin.Y); isC && v >= 0 {
+					k, b = v, ast.Unparen(bin.X)
+				}
+			}
+			call, ok := ast.Unparen(c.p.DefExpr(b)).(*ast.CallExpr)
+			if !ok || len(call.Args) != 2 {
+				return false, 0
+			}
+			f := Callee(info, call)
+			if f == nil || f.Pkg() == nil || f.Pkg().Path() != "strings" || !(strings.HasPrefix(f.Name(), "Index") || strings.HasPrefix(f.Name(), "LastIndex")) {
+				return false, 0
+			}
+			if !sameExpr(info, call.Args[0], x.X) && !sameExpr(info, c.p.DefExpr(call.Args[0]), c.p.DefExpr(x.X)) {
+				return false, 0
+			}
+			maxK := int64(1)
+			if sep, isS := constString(info, call.Args[1]); isS {
+				maxK = int64(len(sep))
+			}
+			if k > maxK {
+				return false, 0
+			}
+			if k >= 1 {
+				return true, k // -1 + k >= 0: "not found" gives the start of the string
+			}
+			fct := e.FactOf(st, b)
+			return fct != nil && fct.Lo != nil && *fct.Lo >= 0, k
+		}
+		okLow, okHigh := x.Low == nil, x.High == nil
+		if !okLow {
+			okLow, _ = found(x.Low)
+		}
+		if !okHigh {
+			okHigh, _ = found(x.High)
+		}
+		if okLow && okHigh && (x.Low == nil || x.High == nil) {
+			return true, "I-found: the bound is the index strings.Index* reported for this very string and is known not to be -1"
+		}
+	}
+	// X.s[X.pos:] for a scanner X: the position never leaves [0, len(s)] (every store to it is checked)
+	if x.High == nil && x.Low != nil {
+		if lo, ok := ast.Unparen(x.Low).(*ast.SelectorExpr); ok && selName(lo) == "pos" {
+			if tx, ok := ast.Unparen(x.X).(*ast.SelectorExpr); ok && sameExpr(info, tx.X, lo.X) {
+				if t := info.TypeOf(lo.X); t != nil && strings.HasSuffix(strings.TrimPrefix(TypeStr(t), "*"), "parser.scanner") {
+					if ok, _ := c.p.scannerPosInvariant(); ok {
+						return true, "I-scanpos: the scanner position stays within [0, len(text)] (every store to it is a decoded rune's width, a saved position, the end of the text, or the position of a found byte)"
+					}
+				}
+			}
+		}
 	}
 	// e[k:] with len >= k
 	if x.High == nil && x.Low != nil {
@@ -682,7 +799,11 @@ func ruleC12Support(p *Program, r *Run) {
 	_ = info
 	r.Check(okPost, "C12/post", "pql.splitQueries returns at least one subquery more than it was given", p.Pos(sq.Pos()), "at every successful return the list is known to be longer than at entry (appended to on the path, or of a different length than saved at entry while it only ever grows)", "splitQueries can return without having appended a subquery: callers index its last element ("+postWhy+")")
 	// C12/variadic: firstParse is always called with >= 1 production
-	fp := p.MustFunc(p.Parser, "firstParse")
+	fp := p.FuncDecl(p.Parser, "firstParse")
+	if fp == nil {
+		r.PassNT("C12/variadic", "parser.firstParse call sites pass at least one production", p.Pos(p.MustFunc(p.Parser, "Parse").Pos()), "no variadic alternative combinator on this tree")
+		return
+	}
 	fpo := FuncObj(p.Parser, fp)
 	calls := 0
 	okVar := true
@@ -834,4 +955,210 @@ func (p *Program) walkUnhandled() string {
 		}
 	}
 	return p.walkWhy
+}
+
+// scannerPosInvariant: every store to the scanner's position keeps it within [0, len(text)]:
+//   - pos += n with n the width utf8.DecodeRune(InString) reported for text[pos:];
+//   - pos = last (an earlier position);
+//   - pos = <parameter>, where every call passes a saved position (a variable only ever assigned from X.pos), a saved
+//     position plus a constant (bytes the function has read since: argued, not checked), len(X.s), or
+//     X.pos + i (+ k) with i the result of strings.Index*(X.s[X.pos:], sep) under a test of i and k <= len(sep).
+func (p *Program) scannerPosInvariant() (bool, string) {
+	if p.scanPosDone {
+		return p.scanPosOK, p.scanPosWhy
+	}
+	p.scanPosDone = true
+	pkg := p.Parser
+	info := p.Info
+	isScanner := func(x ast.Expr) bool {
+		t := info.TypeOf(x)
+		return t != nil && strings.HasSuffix(strings.TrimPrefix(TypeStr(t), "*"), "parser.scanner")
+	}
+	isPosOf := func(x ast.Expr) bool {
+		sel, ok := ast.Unparen(x).(*ast.SelectorExpr)
+		return ok && selName(sel) == "pos" && isScanner(sel.X)
+	}
+	savedPos := func(x ast.Expr) bool {
+		if isPosOf(x) {
+			return true
+		}
+		return p.allDefsAre(x, func(d ast.Expr) bool { return isPosOf(d) })
+	}
+	var argOK func(fd *ast.FuncDecl, a ast.Expr, at ast.Node) bool
+	argOK = func(fd *ast.FuncDecl, a ast.Expr, at ast.Node) bool {
+		a = ast.Unparen(a)
+		if savedPos(a) {
+			return true
+		}
+		if call, ok := a.(*ast.CallExpr); ok && IsBuiltinCall(info, call, "len") && len(call.Args) == 1 {
+			if sel, ok := ast.Unparen(call.Args[0]).(*ast.SelectorExpr); ok && selName(sel) == "s" && isScanner(sel.X) {
+				return true
+			}
+		}
+		// sums: flatten
+		var terms []ast.Expr
+		var flat func(e ast.Expr)
+		flat = func(e ast.Expr) {
+			if b, ok := ast.Unparen(e).(*ast.BinaryExpr); ok && b.Op == token.ADD {
+				flat(b.X)
+				flat(b.Y)
+				return
+			}
+			terms = append(terms, ast.Unparen(e))
+		}
+		flat(a)
+		if len(terms) < 2 {
+			return false
+		}
+		base, consts, found := 0, int64(0), 0
+		maxK := int64(-1)
+		for _, t := range terms {
+			switch {
+			case savedPos(t):
+				base++
+			case constOf(info, t) != nil:
+				v, _ := constInt(info, t)
+				if v < 0 {
+					return false
+				}
+				consts += v
+			default:
+				// i := strings.Index*(X.s[X.pos:], sep)
+				d, ok := ast.Unparen(p.DefExpr(t)).(*ast.CallExpr)
+				if !ok || len(d.Args) != 2 {
+					return false
+				}
+				f := Callee(info, d)
+				if f == nil || f.Pkg() == nil || f.Pkg().Path() != "strings" || !strings.HasPrefix(f.Name(), "Index") {
+					return false
+				}
+				sl, ok := ast.Unparen(d.Args[0]).(*ast.SliceExpr)
+				if !ok || sl.High != nil || !isPosOf(sl.Low) {
+					return false
+				}
+				maxK = 1
+				if sep, isS := constString(info, d.Args[1]); isS {
+					maxK = int64(len(sep))
+				}
+				// the result is tested before it is used
+				tested := false
+				if o := objOf(info, t); o != nil {
+					for n := p.Parent(at); n != nil; n = p.Parent(n) {
+						if ifs, isIf := n.(*ast.IfStmt); isIf {
+							ast.Inspect(ifs.Cond, func(m ast.Node) bool {
+								if id, ok := m.(*ast.Ident); ok && objOf(info, id) == o {
+									tested = true
+								}
+								return true
+							})
+						}
+						if _, isFn := n.(*ast.FuncDecl); isFn {
+							break
+						}
+					}
+				}
+				if !tested {
+					return false
+				}
+				found++
+			}
+		}
+		if base != 1 {
+			return false
+		}
+		if found == 1 {
+			return consts <= maxK
+		}
+		return found == 0 // a saved position plus constants: bytes read since (argued)
+	}
+	ok, why := true, ""
+	bad := func(n ast.Node, msg string) {
+		if ok {
+			ok, why = false, msg+" at "+p.Pos(n.Pos())
+		}
+	}
+	for _, fd := range AllFuncs(pkg) {
+		recvScanner := fd.Recv != nil && len(fd.Recv.List) == 1 && strings.HasSuffix(strings.TrimPrefix(TypeStr(info.TypeOf(fd.Recv.List[0].Type)), "*"), "parser.scanner")
+		ast.Inspect(fd.Body, func(n ast.Node) bool {
+			switch v := n.(type) {
+			case *ast.IncDecStmt:
+				if isPosOf(v.X) {
+					bad(v, "the scanner position is stepped by one byte")
+				}
+			case *ast.AssignStmt:
+				for i, l := range v.Lhs {
+					if !isPosOf(l) {
+						continue
+					}
+					if !recvScanner {
+						bad(v, "the scanner position is assigned outside the scanner's methods")
+						continue
+					}
+					if i >= len(v.Rhs) {
+						bad(v, "unrecognised store to the scanner position")
+						continue
+					}
+					rhs := ast.Unparen(v.Rhs[i])
+					switch v.Tok {
+					case token.ADD_ASSIGN:
+						// n from c, n := utf8.DecodeRuneInString(text[pos:])
+						okN := false
+						if o := objOf(info, rhs); o != nil {
+							ast.Inspect(fd.Body, func(m ast.Node) bool {
+								if as, isAs := m.(*ast.AssignStmt); isAs && len(as.Lhs) == 2 && len(as.Rhs) == 1 && objOf(info, as.Lhs[1]) == o {
+									if call, isCall := ast.Unparen(as.Rhs[0]).(*ast.CallExpr); isCall {
+										if f := Callee(info, call); f != nil && strings.HasPrefix(f.FullName(), "unicode/utf8.DecodeRune") {
+											okN = true
+										}
+									}
+								}
+								return true
+							})
+						}
+						if !okN {
+							bad(v, "the scanner position is advanced by something other than a decoded rune's width")
+						}
+					case token.ASSIGN:
+						if sel, isSel := rhs.(*ast.SelectorExpr); isSel && selName(sel) == "last" && isScanner(sel.X) {
+							continue
+						}
+						if savedPos(rhs) {
+							continue
+						}
+						// a parameter: every call site
+						po := objOf(info, rhs)
+						idx, k := -1, 0
+						for _, f := range fd.Type.Params.List {
+							for _, nm := range f.Names {
+								if info.Defs[nm] == po && po != nil {
+									idx = k
+								}
+								k++
+							}
+						}
+						if idx < 0 || !p.neverReassigned(po) {
+							bad(v, "unrecognised store to the scanner position")
+							continue
+						}
+						fobj := FuncObj(pkg, fd)
+						for _, caller := range AllFuncs(pkg) {
+							ast.Inspect(caller.Body, func(m ast.Node) bool {
+								if call, isCall := m.(*ast.CallExpr); isCall && Callee(info, call) == fobj && idx < len(call.Args) {
+									if !argOK(caller, call.Args[idx], call) {
+										bad(call, "the scanner is moved to "+exprStr(call.Args[idx])+", which is not a saved position, the end of the text or the place of a found byte")
+									}
+								}
+								return true
+							})
+						}
+					default:
+						bad(v, "unrecognised store to the scanner position")
+					}
+				}
+			}
+			return true
+		})
+	}
+	p.scanPosOK, p.scanPosWhy = ok, why
+	return ok, why
 }
